@@ -31,16 +31,17 @@ CLAIMED = {
     "C03": ("Lean 4 proof: refinement of the mirror model to a plain reference model (M.run = S.run, worlds and answers) + frame corollaries; correspondence after every call",
             "Theorem C03_refinement: replaying any history on the mirror model (same guards, same recursion as the Python) gives exactly the world and "
             "return values of the plain closed-form reference model S; frame corollaries C03_setEnd_frame, C03_setEnd_keeps_if_still_end, "
-            "C03_setEnd_lost_end, C03_newEdge_appends, C03_dontdup_creates_nothing are read off S. The code is compared with M after every call on "
+            "C03_setEnd_lost_end, C03_newEdge_appends, C03_dontdup_creates_nothing, C03_unlink_exact (unlink removes exactly the links joining a and b, returns exactly those, touches nothing else) are read off S. The code is compared with M after every call on "
             "ORDERED links/ends/members, and a model-free before/after oracle evaluates the statement's clauses (incl. unlink exactness).",
-            "unlink's iteration over a Python set is modelled in a.links order; order-independence is exercised by the correspondence (hash order varies per run) but not proved.",
+            "unlink iterates a Python set: the model processes the links in a.links order and C03_unlink_order_independent proves any order gives the same world; C03_unlink_exact assumes every attached link is a proper two-ended link.",
             "DESIGN.md 3/C03"),
     "C06": ("Lean 4 proof: closure/exactness/termination of the three traversal loops by induction (no bound on graph size); correspondence on exhaustive ordered multigraphs",
             "Theorems C06_{bft,dftRecursive,dftIterative}_exact (no repetition, start first, listed set = vertices reachable through in-universe vertices), "
             "_terminates (result independent of fuel above an explicit bound), C06_agree_as_sets, C06_ff_result_* (ff_result only filters the listing), for an "
-            "arbitrary resolved neighbour function, universe test and filter. Tie to the code: every ordered link list over {D,U,X} on 2-3 vertices x starts "
+            "arbitrary resolved neighbour function, universe test and filter; and at the level of the WORLD (EG.TravOps: pre-flight checks, resolution of neighbors(), loop, cut at the first exception): "
+            "C06_world_exact / _agree / _ff_result / _preflight for every world where neighbors() of every vertex returns without None. Tie to the code: every ordered link list over {D,U,X} on 2-3 vertices x starts "
             "x universes x 3x3 modes, list and generator forms, plus random multigraphs; model-free fixpoint-reachability oracle.",
-            "The resolution of neighbors() errors / None neighbours into pseudo-vertices is driver glue (lean/Main.lean), validated by the correspondence only.",
+            "The encoding of a raising neighbors() / a None neighbour as pseudo-vertices (EG.TravOps) is covered by the world-level theorems only for total graphs; its error paths are validated by the correspondence.",
             "DESIGN.md 3/C06"),
     "C07": ("Lean 4 proof: BFS distance monotonicity and listing order, DFS white-path segments, explicit-stack DFS = recursive DFS on reversed lists; correspondence on exhaustive ordered multigraphs",
             "Theorems C07_bft_monotone_distance (a hop-distance function exists for which every listed vertex is at its exact shortest distance and the distance never "
@@ -50,7 +51,8 @@ CLAIMED = {
             "'Rebuild the same graph in the same order' is by construction in the model (outputs are functions of nb/inU); on the real code it is exercised by re-running scripts with fresh objects.",
             "DESIGN.md 3/C07"),
     "C08": ("Lean 4 proof: each search loop = find? of its traversal (lock-step induction); correspondence with falsy vertices and ==-but-not-identical values",
-            "Theorems C08_bfs_eq_find, C08_dfsIterative_eq_find (every fuel), C08_dfsRecursive_eq_find (sufficient fuel), C08_first_match, C08_start_eligible. The model "
+            "Theorems C08_bfs_eq_find, C08_dfsIterative_eq_find (every fuel), C08_dfsRecursive_eq_find (sufficient fuel), C08_first_match, C08_start_eligible, and C08_world_first_match (the three search ENTRY POINTS "
+            "on a world return find? of their traversal's listing for the attribute predicate). The model "
             "has no notion of vertex truthiness at all, so any dependence of the real code on it is a correspondence break (falsy Vertex subclass in the pool).",
             "Attribute values are modelled as ==-classes; Python's == on the value pool is trusted.", "DESIGN.md 3/C08"),
     "C19": ("Lean 4 proof: invariant LawSym over all histories + M=S refinement of the two mutually recursive setters; exhaustive small-scope correspondence",
@@ -64,9 +66,10 @@ CLAIMED = {
             "C04_order_and_multiplicity, C04_filter_restricts, C04_fwd_bwd_duality. Multi-link composition is tied to the code by the correspondence on structure worlds x all vertices x modes x filter tables.",
             "Rows where the vertex is attached to a link but is neither of its two ends are mirrored, not specified.", "DESIGN.md 3/C04"),
     "C09": ("Lean 4 proof: regenerated 480-row table of the real find_links() re-proved = model = rule each run; exactness / count theorems; correspondence incl. after-unlink",
-            "C09_impl_eq_model / C09_impl_eq_spec over the complete per-link domain; C09_link_rule, C09_exact, C09_raises, C09_count (|find_links| = multiplicity in neighbors for FORWARD / ANY). "
-            "After-unlink emptiness and non-interference with other pairs are checked by the oracle on the real code and by the correspondence (not proved).",
-            "C09_after_unlink is not a theorem (partial).", "DESIGN.md 3/C09"),
+            "C09_impl_eq_model / C09_impl_eq_spec over the complete per-link domain; C09_link_rule, C09_exact, C09_raises, C09_count (|find_links| = multiplicity in neighbors for FORWARD / ANY), "
+            "C09_after_unlink_empty (after unlink(a,b) find_links(a,b) and (b,a) are empty for every direction flag, unknown mode and filter), C09_after_unlink_others (every other pair answers as before). "
+            "The oracle re-evaluates the statement on the real code, incl. after-unlink emptiness and non-interference.",
+            "The unlink theorems assume every attached link is a proper two-ended link (exactly two ends).", "DESIGN.md 3/C09"),
     "C05": ("Lean 4 proof: invariant CacheOK (every memo equals the recomputed answer, flag on or off) over all histories mixing mutators, queries and flag toggles; audit-mode correspondence + fresh-interpreter pickling",
             "Theorems C05_all_histories, C05_step_preserves, C05_query_preserves (also under a raising filter), C05_transparent, C05_answers_transparent. Correspondence in audit mode: after every "
             "mutating op every vertex is queried under several keys with caching on; oracle: answer with caching on = answer recomputed with the flag off (also for traversals/searches); "
@@ -87,7 +90,8 @@ CLAIMED = {
             "C11_dict_links_of_vertex / C11_matrix_links_of_vertex (the exact ordered links a vertex gains, from which read-back follows by C04/C09), C11_matrix_bad_input (ValueError, no new world). "
             "Correspondence: every dict over <=3 vertices with value lists <=2 (sampled in quick), every 0/1 matrix up to 3x3 with arbitrary truthy/falsy cell values, malformed inputs, prior links/universes; "
             "the oracle reads the result back with neighbors()/find_links on the real code.",
-            "Read-back itself is checked on the real code by the oracle, and follows in the model from C11_*_links_of_vertex + C04/C09 but is not stated as one theorem.", "DESIGN.md 3/C11"),
+            "Read-back theorems C11_dict_readback_any / _directed / _undirected (multiplicity of y among neighbors(x) = multiplicity of the listed pairs, symmetric closure for undirected types, a self entry once) are "
+            "proved for load_adj_dict and vertices without prior links; for load_adj_matrix read-back is checked by the oracle on the real code only.", "DESIGN.md 3/C11"),
     "C12": ("Lean 4 proof: non-interference of caller-side edits of handed-out containers over all histories (alias-free model); correspondence that really mutates every exchanged container",
             "Theorem C12_noninterference: in the model every accessor/query returns a value, so for every history interleaving public calls with arbitrary edits of any container handed out so far, "
             "the world and all answers equal those of the history with the edits erased (C12_cached_answer_detached for the neighbors memo). The weight is in the correspondence: with keep-mode on, the adapter "
